@@ -159,9 +159,11 @@ class Parser:
         t = self.peek(k); return t is not None and t.k == 'kw' and t.v == v
     def fail(self, what='token'):
         t = self.peek()
-        if t is None: raise RefSyntaxError(None, 'unexpected EOF', 'parse-eof')
-        if t.k == 'lexerr': raise t.v
-        raise RefSyntaxError(t.loc, 'unexpected %s %r' % (what, t.v), 'parse')
+        if t is None: e = RefSyntaxError(None, 'unexpected EOF', 'parse-eof')
+        elif t.k == 'lexerr': e = t.v
+        else: e = RefSyntaxError(t.loc, 'unexpected %s %r' % (what, t.v), 'parse')
+        e.tokidx = self.p
+        raise e
     def eat_sym(self, v):
         if not self.is_sym(v): self.fail()
         self.p += 1
@@ -189,10 +191,24 @@ class Parser:
         t = self.peek()
         if t is None: self.fail()
         loc = t.loc
-        if t.k == 'sym' and t.v == '{' and self.block_ahead():
-            b = self.block()
-            if not b: self.fail()
-            return N('block', loc, body=b)
+        if t.k == 'sym' and t.v == '{':
+            # `{` at statement start: object-literal expression statement or bare block.  An LR parser follows both readings and
+            # fails at the first token neither can accept: try both, keep the one that parses, else report the failure that got further
+            save = self.p; errs = []
+            try:
+                st = self.simple_stmt(loc)
+                nt = self.peek()
+                if nt is not None and nt.k == 'end': return st
+                self.fail()
+            except RefSyntaxError as e: errs.append((getattr(e, 'tokidx', 10**9), e))
+            self.p = save
+            try:
+                b = self.block()
+                if not b: self.fail()
+                return N('block', loc, body=b)
+            except RefSyntaxError as e: errs.append((getattr(e, 'tokidx', 10**9), e))
+            errs.sort(key=lambda x: -x[0])
+            raise errs[0][1]
         if t.k == 'kw':
             if t.v == 'if': return self.if_stmt()
             if t.v == 'while':
@@ -207,6 +223,8 @@ class Parser:
                 self.p += 1; nt = self.peek(); self.p += 1
                 self.eat_sym('('); params, collect = self.param_list(); self.eat_sym(')'); b = self.block()
                 return N('fndecl', loc, name=nt.v, name_loc=nt.loc, params=params, collect=collect, body=b)
+        return self.simple_stmt(loc)
+    def simple_stmt(self, loc):
         lhs = self.expr()
         t = self.peek()
         if t is not None and t.k == 'sym':
